@@ -1,10 +1,12 @@
 """C15 — Gaussian density utilities agree with their definition and with each other; log-sum-exp
 (DESIGN.md §5 C15)."""
+import sys
 import math
 import numpy as np
 from vlib import caseio, gen, runner
 
 ID = "C15"
+WIDEN_DEFAULT = True
 COQ_TARGETS = ["C15_Extract.vo", "C15_Proofs.vo", "C15_RProofs.vo"]
 EXTRACTED = "C15_model"
 DRIVER = "drv_C15.ml"
@@ -476,5 +478,6 @@ def main(ctx, a):
         cases = generate(ctx.rng, a.tier)
     if cases:
         runner.standard_cases(ctx, cases)
+    runner.widen_if_needed(ctx, sys.modules[__name__], a)
     ctx.extra["histogram"] = histogram(cases)
     return runner.finish(ctx)
